@@ -82,9 +82,9 @@ func (f *c04Filler) text() string {
 func (f *c04Filler) date() time.Time {
 	p := []int64{0, 1, -1, 951782400, 1700000000, 2147483648, 4294967296, c04DateMin, c04DateMax, -2208988800, 32503680000}
 	if f.r.Bool() {
-		return time.Unix(p[f.r.Intn(len(p))], 0)
+		return c04Instant(p[f.r.Intn(len(p))])
 	}
-	return time.Unix(c04DateMin+int64(f.r.U64()%315537897600), 0)
+	return c04Instant(c04DateMin + int64(f.r.U64()%315537897600))
 }
 
 func (f *c04Filler) bigInt() *big.Int {
